@@ -1508,3 +1508,37 @@ def o7(h):
                                                                           mirrored_carry=Mf, after_real_body_with_minus_f=Cmn_,
                                                                           how='real loop body of rtsafe_ re-traced with f and with -f (f = Hermite interpolant of the model) executed on the carry and on its mirror image')
     prove_all(h, '', enc.side(), named, inputs, conc_step, order=('nlsat', 'core'))
+
+
+# =========================================================================================== O8 settings constructor passes the tolerances through
+@obligation(P, 'O8.get_settings_passes_tolerances_through', cap=60)
+def o8(h):
+    """"every tolerance setting": the public settings constructor is part of how a tolerance is requested. The REAL
+    `get_settings` is run on symbolic numbers whose truth value is their real Python truth value (x != 0, so `a or b`,
+    `if a:` fork instead of taking the proxy for true): the three fields of the returned Settings are the three arguments,
+    in particular r_tol = 0 (residual test off) stays 0 and is not replaced by another tolerance (PX)"""
+    from .. import px
+    S = _S()
+    h.encoded(S.get_settings)
+    h.bounds('max_iters any integer, x_tol and r_tol any reals (including 0 and negative values); one call')
+
+    class TruthReal(px.SymReal):
+        def __bool__(self):
+            return px.cur().branch(self.z != 0)
+
+    def fn(ex):
+        def tr(v):
+            return TruthReal(v.z) if px.is_sym(v) else v
+        mi, xt, rt = tr(ex.int('max_iters')), tr(ex.real('x_tol')), tr(ex.real('r_tol'))
+        st = S.get_settings(mi, xt, rt)
+        U = px.unwrap
+        from ..sym import Eq
+        ex.goal('max_iters_field_is_argument', Eq(U(st.max_iters), U(mi)))
+        ex.goal('x_tol_field_is_argument', Eq(U(st.x_tol), U(xt)))
+        ex.goal('r_tol_field_is_argument', Eq(U(st.r_tol), U(rt)))
+        st2 = S.get_settings(x_tol=xt, r_tol=rt)
+        ex.goal('keyword_call_r_tol_field_is_argument', Eq(U(st2.r_tol), U(rt)))
+        ex.goal('keyword_call_x_tol_field_is_argument', Eq(U(st2.x_tol), U(xt)))
+    px.run_px(h, 'get_settings', fn, cap=20, expect_goals=['max_iters_field_is_argument', 'x_tol_field_is_argument', 'r_tol_field_is_argument'])
+    d = S.get_settings()
+    h.fact('defaults_are_50_1e-13_0', (d.max_iters, d.x_tol, d.r_tol) == (50, 1e-13, 0), detail=repr(tuple(d)))
